@@ -79,7 +79,8 @@ def run(cx):
             marks = {(m["ev"], m["t"]): m["v"] for m in res.get("marks") or []}
             exp = {("spawn", 1): "5", ("spawn", 2): "6", ("wait", 1): "51", ("wait", 2): "62", ("waiterr", 3): '"boom"',
                    ("go", 4): "[13, 23, 33, 43]", ("go", 5): "8", ("go", 6): "9", ("go", 7): "407",
-                   ("closure", 8): "[105, 6, 5]", ("closure", 9): "[7, 7]"}
+                   ("closure", 8): "[105, 6, 5]", ("closure", 9): "[7, 7]",
+                   ("nilvalue", 10): "[1, nil, 3, nil]", ("nilvalue", 11): "[[0, nil], [1, 7]]", ("waitpanic", 12): '"raised"'}
             if marks != exp:
                 bad_marks.append((r_["id"], marks))
     langlib.tlc_conform(cx, traces, spec="TraceChan", prefix="trace", strip=(), nshards=8)
